@@ -50,6 +50,70 @@ def deletion_matrix():
     return res
 
 
+EMPTY_INNER = ["", "\n", "\n\t// only a comment\n", " /* c */ "]      # in every position
+EMPTY_INNER_MORE = [" ", "\n\n", "\n\t/* a\n\t b */\n\t// c\n"]      # alone and in the middle
+
+
+def empty_matrix():
+    """EMPTY forms of every grouping construct (type / info / import groups, @server, @doc group,
+    service body, struct, anonymous struct, struct-typed members of every shape, '()' bodies; files
+    holding only comments or only white space), written with nothing / blanks / line breaks / only
+    comments between the delimiters, in every position (alone, first, middle, last, twice in a row,
+    twice around something) -- fixed, the same programs in every run, executed before anything
+    random (seed C20-8: 'type ()' made the parser return neither a description nor an error and the
+    formatter crash)."""
+    X = "type A {\n\tF int\n}\n"
+    Y = "service y {\n\t@handler hy\n\tget /y\n}\n"
+
+    def stmts(inner):
+        return ["type (%s)\n" % inner, "info (%s)\n" % inner, "import (%s)\n" % inner, "type T {%s}\n" % inner,
+                "service s {%s}\n" % inner, "@server (%s)\nservice s {\n\t@handler h\n\tget /a\n}\n" % inner,
+                "@server (%s)\nservice s {%s}\n" % (inner, inner)]
+
+    res = []
+    for inner in EMPTY_INNER:
+        for e in stmts(inner):
+            e2 = e.replace("type T", "type U")
+            res += [e, e + X, X + e, X + e + Y, e + e2, e + X + e2, X + e + e2 + Y]
+    for inner in EMPTY_INNER_MORE:
+        for e in stmts(inner):
+            res += [e, X + e + Y]
+    for e in ["type(\n)\n", "type()", "type (\n\n\n)", "type ( // c\n)\n", "info(\n)\n", "import(\n)\n", "@server()\nservice s{}\n",
+              "type T = {}\n", "type (\n\tT {}\n)\n", "type (\n\tT {}\n\tU {}\n)\n", "type (\n\tT {\n\t}\n)\n"]:
+        res += [e, X + e + Y, e + e]
+    # empty constructs inside a service item / a struct: first, middle, last member; twice
+    item = "\t@handler h%d\n\tget /p%d\n"
+    for inner in EMPTY_INNER + EMPTY_INNER_MORE:
+        d = "\t@doc (%s)\n" % inner
+        forms = [d + item % (1, 1), item % (0, 0) + d + item % (1, 1), d + item % (1, 1) + d + item % (2, 2),
+                 item % (0, 0) + d + item % (1, 1) + item % (2, 2) + d + item % (3, 3)]
+        res += ["service s {\n%s}\n" % f for f in (forms if inner in EMPTY_INNER else forms[1:2])]
+    for inner in EMPTY_INNER:
+        for ty in ("{%s}", "[]{%s}", "map[string]{%s}", "[2]{%s}", "{\n\t\tB {%s}\n\t}"):
+            m = "\tM%d " + ty % inner
+            tag = ' `json:"m"`'
+            forms = [m % 1 + "\n", "\tA int\n" + m % 1 + "\n\tZ int\n", "\tA int\n" + m % 1 + "\n" + m % 2 + "\n",
+                     m % 1 + tag + "\n", "\tA int\n" + m % 1 + tag + "\n" + m % 2 + tag + "\n\tZ int\n"]
+            res += ["type T {\n%s}\n" % f for f in forms]
+    for d in ('\t@doc ""\n', "\t@doc ``\n", '\t@doc (\n\t\ta: ""\n\t)\n'):
+        res += ["service s {\n%s}\n" % f for f in
+                (d + item % (1, 1), item % (0, 0) + d + item % (1, 1), d + item % (1, 1) + d + item % (2, 2))]
+    for req in ("()", "( )", "(\n)", "( /* c */ )"):
+        res += ["service s {\n\t@handler h\n\tget /a %s\n}\n" % req, "service s {\n\t@handler h\n\tget /a returns %s\n}\n" % req,
+                "service s {\n\t@handler h\n\tget /a %s returns %s\n}\n" % (req, req),
+                "service s {\n\t@handler h\n\tget /a %s returns (T)\n\t@handler g\n\tpost /b (T) returns %s\n}\n" % (req, req)]
+    # files that hold no statement at all
+    res += ["// c\n", "// c", "/* c */", "/* c */\n", "// a\n// b\n", "\n// c\n\n", "/* a\n b */\n\n// c", "//", "/**/",
+            "\n", " ", "\t\n \n", "\r\n", ";", ";\n;\n"]
+    seen = set()
+    out = []
+    for x in res:
+        if x and x not in seen:
+            seen.add(x)
+            out.append(x)
+    return out
+
+
 LEX_WORDS = ["type", "service", "info", "get", "returns", "import", "syntax", "group", "prefix", "jwt", "middleware",
              "timeout", "maxBytes", "api", "map", "any", "interface", "post", "handler", "doc", "server", "string",
              "struct", "func", "go", "T"]
@@ -63,6 +127,28 @@ LEX_SVALUES = ["0", "007", "1", "18446744073709551616", "1s", "1ms", "1µs", "1n
                "1m5s10ms3µs7ns", "1s1s", "1.5s", "-1", "1_000", "0x10", "1e3", "1ss", "1sm", "3sx", "5ns3", "2h1ms",
                "a", "a,b", "a-b", "a/b", "/a/b", "/a-b/c", "a.b", "a:b", '"s"', "`r`", "a,b,c", "a-b-c", "a/b-c/d", "/"]
 SVC = "service s {\n\t@handler h\n\tget /a\n}\n"
+
+
+LEX_WS = ['"\t"', '"a\tb"', '" "', '"a\nb"', '"a \n b"', "`\t`", "`a\tb`", "` `", "`a\nb`", "`a \n\tb`"]
+
+
+def literal_positions(v):
+    """one program per position of the grammar that holds a string literal"""
+    return ["syntax = %s\n" % v, "import %s\n" % v, "import (\n\t%s\n\t\"b\"\n)\n" % v,
+            "info (\n\ta: %s\n\tb: \"x\"\n)\n" % v, "type T {\n\tA int %s\n\tB int\n}\n" % v,
+            "type T {\n\tFoo %s\n}\n" % v,
+            "service s {\n\t@doc %s\n\t@handler h\n\tget /a\n}\n" % v,
+            "service s {\n\t@doc (\n\t\ta: %s\n\t\tb: \"y\"\n\t)\n\t@handler h\n\tget /a\n}\n" % v,
+            "@server (\n\tk: %s\n\tj: x\n)\n" % v + SVC]
+
+
+def lexeme_core():
+    """white space (tab, blank, line break) as the content of, and inside, a string / raw string in
+    every literal position -- in every run (seeds C20-3, C20-4, C20-7)"""
+    res = []
+    for v in LEX_WS:
+        res += literal_positions(v)
+    return res
 
 
 def lexeme_matrix():
@@ -87,12 +173,7 @@ def lexeme_matrix():
                 "service s {\n\t@handler h\n\tget /a (%s)\n}\n" % w, "service s {\n\t@handler h\n\tget /a returns ([]%s)\n}\n" % w,
                 'service s {\n\t@doc (\n\t\t%s: "x"\n\t)\n\t@handler h\n\tget /a\n}\n' % w]
     for v in LEX_STRINGS + LEX_TAGS:
-        res += ["syntax = %s\n" % v, "import %s\n" % v, "import (\n\t%s\n\t\"b\"\n)\n" % v,
-                "info (\n\ta: %s\n\tb: \"x\"\n)\n" % v, "type T {\n\tA int %s\n\tB int\n}\n" % v,
-                "type T {\n\tFoo %s\n}\n" % v,
-                "service s {\n\t@doc %s\n\t@handler h\n\tget /a\n}\n" % v,
-                "service s {\n\t@doc (\n\t\ta: %s\n\t\tb: \"y\"\n\t)\n\t@handler h\n\tget /a\n}\n" % v,
-                "@server (\n\tk: %s\n\tj: x\n)\n" % v + SVC]
+        res += literal_positions(v)
     for pth in LEX_PATHS:
         res += ["service s {\n\t@handler h\n\tget %s\n}\n" % pth, "service s {\n\t@handler h\n\tget %s (T) returns (U)\n}\n" % pth,
                 "service s {\n\t@handler h\n\tget %s returns (U);\n\t@handler g\n\tpost %s\n}\n" % (pth, pth)]
